@@ -6,11 +6,13 @@
    [srt] is TableCollection.sort / tsk_table_collection_sort, assumed only to satisfy
    [sort_ok] (permutes edges and migrations, leaves already sorted site / mutation tables
    alone); [canon_sort_ok] shows the sort used by the correspondence is such a function.
-   extend_haplotypes has no theorem here: it is checked at specification level only
-   (harness family `extend`). *)
+   extend_haplotypes: the edge-extension algorithm is not modelled; the mutation pass
+   (tsk_treeseq_slide_mutation_nodes_up) is, and [extend_preserves_genotype] is a theorem about
+   the documented effect of the extension at one position (C11/ExtendSpec.v); its hypotheses are
+   checked on every implementation output by the harness family `extend`. *)
 From Coq Require Import List ZArith Bool Permutation.
-From TskVerif Require Import Base.Common Gen.Generated C11.Model C11.Spec C11.IntervalProofs C11.SitesProofs
-     C11.KeepProofs C11.TrimProofs C11.TrimMutProofs C11.TimeProofs C11.TotalProofs C11.Main.
+From TskVerif Require Import Base.Common Gen.Generated C11.Model C11.Current C11.Spec C11.IntervalProofs C11.SitesProofs
+     C11.KeepProofs C11.TrimProofs C11.TrimMutProofs C11.TimeProofs C11.TotalProofs C11.ExtendSpec C11.Main.
 Import ListNotations.
 Open Scope Z_scope.
 
@@ -330,3 +332,24 @@ Theorem decapitate_spec : forall srt t flags pop md npop tb tb',
   t_muts tb' = map (fun m => set_parent m (older_parent ns t (t_muts tb) m))
                    (filter (young ns t) (t_muts tb)).
 Proof. exact decapitate_spec_lemma. Qed.
+
+(* extend_haplotypes, specification level.  At one site position: every node of the input tree
+   (orig) keeps its ancestor chain, a run of nodes absent from the input tree may be inserted
+   directly above it (run u), each inserted node in one place only; mutations (sorted by
+   non-increasing time per node) are moved by the slide loop of the C code (climb).  If every
+   mutation sits above a node of the input tree -- the hypothesis finding F15 violates -- the
+   state inherited through any ancestor chain of input-tree nodes is unchanged. *)
+Theorem extend_preserves_genotype : forall (tm : Z -> Z) (run : Z -> list Z) (orig : Z -> Prop),
+  (forall u n, In n (run u) -> ~ orig n) ->
+  (forall u u' n, In n (run u) -> In n (run u') -> u = u') ->
+  (forall u, NoDup (run u)) ->
+  forall ms : list smut, time_sorted ms -> (forall m, In m ms -> orig (sn m)) ->
+  forall chain anc, (forall u, In u chain -> orig u) ->
+  geno (expand run chain) (map (slide tm run) ms) anc = geno chain ms anc.
+Proof. exact extend_preserves_genotype_lemma. Qed.
+
+(* the C loop climbs the whole ancestor list; a mutation younger than the input parent of its
+   node (valid input) stops inside the inserted run, so [slide] is that loop *)
+Theorem slide_loop_stops_below_input_parent : forall tm mt cur l p more,
+  mt < tm p -> climb tm mt cur (l ++ p :: more) = climb tm mt cur l.
+Proof. exact climb_stops. Qed.
